@@ -213,6 +213,18 @@ impl Canonical {
         // Keep commits which pass the threshold.
         candidates.retain(|_, votes| *votes >= self.threshold);
 
+        // N.b. a candidate that all the other candidates are ancestors of is the head,
+        // even if some of its ancestors have diverged from each other (it merges them).
+        // Without this, whether such a merge is found depends on the order of the object ids.
+        'candidates: for head in candidates.keys() {
+            for other in candidates.keys() {
+                if other != head && Oid::from(repo.merge_base(**other, **head)?) != *other {
+                    continue 'candidates;
+                }
+            }
+            return Ok(*head);
+        }
+
         let (mut longest, _) =
             candidates
                 .pop_first()
